@@ -5,7 +5,7 @@
 From Coq Require Import List Arith Bool Reals QArith Lia Lra ZArith.
 From TLV Require Import Base.Shape Base.PyList Base.Tensor Base.Ops Base.RSum Model.Metrics Proofs.MetricsProofs
   Proofs.MetricsProofs2 Proofs.MetricsProofs3 Proofs.MetricsProofs4 Proofs.MetricsProofs5 Proofs.MetricsProofs6
-  Proofs.MetricsProofs7 Proofs.MetricsProofs8.
+  Proofs.MetricsProofs7 Proofs.MetricsProofs8 Proofs.MetricsProofs9 Proofs.MetricsProofs10.
 Import ListNotations.
 Local Close Scope Q_scope.
 Local Open Scope R_scope.
@@ -54,6 +54,39 @@ Theorem C20_congruence_is_max_given_lsa : forall (absv : bool) (As Bs : list (ma
   forall q, is_perm r q -> score Rops r C q <= v.
 Proof. exact congruence_is_max. Qed.
 Print Assumptions C20_congruence_is_max_given_lsa.
+
+(* CERTIFIED OPTIMALITY, any rank, no assumption on the oracle.  vs = ANY list of column potentials (data); the row potentials
+   are u_i = max_j (C_ij - v_j).  Weak LP duality: every perfect matching weighs at most dual_bound = sum u + sum v.  Hence a
+   matching whose dual_gap (= dual_bound - its own weight) is at most eps is within eps / r of the maximal mean congruence.
+   The correspondence evaluates exactly this gap in Coq on the implementation's returned matching (eps = 1e-9 * r), at ranks
+   beyond the reach of the r! brute force as well. *)
+Theorem C20_weak_duality : forall (r : nat) (C : mat R) (vs : list R) (q : list nat),
+  is_perm r q -> match_weight Rops r C q <= dual_bound Rops r C vs.
+Proof. exact weak_duality. Qed.
+Print Assumptions C20_weak_duality.
+
+Theorem C20_dual_certificate_optimal : forall (r : nat) (C : mat R) (vs : list R) (p : list nat) (eps : R),
+  (0 < r)%nat -> dual_gap Rops r C vs p <= eps ->
+  forall q, is_perm r q -> score Rops r C q <= score Rops r C p + eps / INR r.
+Proof. exact dual_certificate_optimal. Qed.
+Print Assumptions C20_dual_certificate_optimal.
+
+Theorem C20_dual_gap_nonneg_and_zero_optimal : forall (r : nat) (C : mat R) (vs : list R) (p : list nat),
+  (is_perm r p -> 0 <= dual_gap Rops r C vs p) /\
+  ((0 < r)%nat -> dual_gap Rops r C vs p <= 0 -> forall q, is_perm r q -> score Rops r C q <= score Rops r C p).
+Proof. intros r C vs p. split; [apply dual_gap_nonneg | apply dual_gap_zero_optimal]. Qed.
+Print Assumptions C20_dual_gap_nonneg_and_zero_optimal.
+
+(* the same through the model of congruence_coefficient with an ARBITRARY assignment oracle: a certified answer is within
+   eps / r of the maximum over all column matchings *)
+Theorem C20_congruence_certified : forall (absv : bool) (As Bs : list (mat R)) (nas nbs : list (list R))
+  (assign : mat R -> list nat) (v : R) (p : list nat) (vs : list R) (eps : R),
+  congruence Rops absv As Bs nas nbs assign = Ok (v, p) ->
+  let r := ncols (hd [] As) in let C := cong_all Rops absv r (zip_modes As Bs nas nbs) in
+  (0 < r)%nat -> dual_gap Rops r C vs p <= eps ->
+  v = score Rops r C p /\ forall q, is_perm r q -> score Rops r C q <= v + eps / INR r.
+Proof. exact congruence_certified. Qed.
+Print Assumptions C20_congruence_certified.
 
 (* every cosine is bounded by 1 (Cauchy-Schwarz), hence the coefficient of ANY matching lies in [-1,1],
    and in [0,1] when absolute values are used *)
@@ -110,6 +143,31 @@ Theorem C20_cp_permute_aligned_given_lsa : forall (ref fs : list (mat R)) (w : l
 Proof. exact cp_permute_aligned. Qed.
 Print Assumptions C20_cp_permute_aligned_given_lsa.
 
+(* ---------- invariance under column rescaling (the CP scaling indeterminacy; also what cp_normalize does to the reference
+   and to listed tensors inside cp_permute_factors before the congruence is taken) ----------
+   rescaled r m m' a b: column i of A is multiplied by a i, column j of B by b j.  The cosine changes by the two signs only;
+   modes_rescaled absv r ms ms': mode by mode rescaled by non-zero scalars (positive ones when absolute_value is off).  Then
+   the congruence matrix, the mean congruence of every matching and the set of optimal matchings are unchanged. *)
+Theorem C20_cosine_rescaled : forall (r : nat) (m m' : cmode R) (a b : nat -> R) (i j : nat),
+  mode_ok r m -> mode_ok r m' -> rescaled r m m' a b -> (i < r)%nat -> (j < r)%nat -> a i <> 0 -> b j <> 0 ->
+  cosine m' i j = (a i / Rabs (a i)) * (b j / Rabs (b j)) * cosine m i j.
+Proof. exact cosine_rescaled. Qed.
+Print Assumptions C20_cosine_rescaled.
+
+Theorem C20_congruence_matrix_rescale_invariant : forall (absv : bool) (r : nat) (ms ms' : list (cmode R)) (i j : nat),
+  modes_rescaled absv r ms ms' -> (i < r)%nat -> (j < r)%nat ->
+  mget Rops (cong_all Rops absv r ms') i j = mget Rops (cong_all Rops absv r ms) i j.
+Proof. exact cong_all_rescaled. Qed.
+Print Assumptions C20_congruence_matrix_rescale_invariant.
+
+Theorem C20_optimal_matching_rescale_invariant : forall (absv : bool) (r : nat) (ms ms' : list (cmode R)) (p : list nat),
+  modes_rescaled absv r ms ms' -> is_perm r p ->
+  score Rops r (cong_all Rops absv r ms') p = score Rops r (cong_all Rops absv r ms) p /\
+  ((forall q, is_perm r q -> score Rops r (cong_all Rops absv r ms) q <= score Rops r (cong_all Rops absv r ms) p) <->
+   (forall q, is_perm r q -> score Rops r (cong_all Rops absv r ms') q <= score Rops r (cong_all Rops absv r ms') p)).
+Proof. intros absv r ms ms' p H Hp. split; [now apply score_rescaled | now apply optimal_matching_rescaled]. Qed.
+Print Assumptions C20_optimal_matching_rescale_invariant.
+
 (* ---------- leverage scores ---------- *)
 (* U: left factor of the thin SVD (oracle), unit-norm columns.  The returned vector has one entry per row, is
    non-negative and sums to one -- whatever numerical rank the cut selects *)
@@ -141,24 +199,49 @@ Theorem C20_equivalent_covered : forall (r : nat) (m : cmode R) (rec : list nat)
 Proof. exact equivalent_covered. Qed.
 Print Assumptions C20_equivalent_covered.
 
-(* the converse ("0 exactly for equivalent sets") needs a non-positive threshold: with the default tol = 5e-16 > 0 the
-   code maps every index below tol to 0 by design, so the converse is false there.  Hence the suffix _partial.
-   stacked / max_score / avg_score: EVERY compared pair is covered; min_score: SOME compared pair is. *)
-Theorem C20_corrindex_zero_only_if_covered_partial : forall (meth : cmethod) (tol : R) (f1s f2s : list (mat R))
+(* "0 EXACTLY for equivalent sets", for EVERY threshold.  The code maps a per-pair index below tol to 0 by design (default
+   tol = 5e-16), so what it decides is: the pair is NEGLIGIBLE = its raw index (before the threshold, ci_raw) is below tol, or
+   the pair is covered.  stacked / max_score / avg_score: the result is 0 iff EVERY compared pair is negligible;
+   min_score: iff SOME compared pair is.  With tol <= 0 negligible = covered, i.e. the property's "exactly". *)
+Theorem C20_corrindex_zero_iff_negligible : forall (meth : cmethod) (tol : R) (f1s f2s : list (mat R))
+  (n1s n2s : list (list R)) (v : R),
+  meth <> MinScore ->
+  correlation_index Rops (Some meth) tol f1s f2s n1s n2s = Ok v -> tape_valid (ci_modes meth f1s f2s n1s n2s) ->
+  (v = 0 <-> forall m, In m (ci_modes meth f1s f2s n1s n2s) ->
+               corr_index_raw Rops (mA m) (mB m) (nA m) (nB m) < tol \/ cols_covered m (ncols (mA m))).
+Proof. exact correlation_index_zero_iff_all. Qed.
+Print Assumptions C20_corrindex_zero_iff_negligible.
+
+Theorem C20_corrindex_zero_iff_negligible_min_score : forall (tol : R) (f1s f2s : list (mat R)) (n1s n2s : list (list R)) (v : R),
+  correlation_index Rops (Some MinScore) tol f1s f2s n1s n2s = Ok v ->
+  tape_valid (ci_modes MinScore f1s f2s n1s n2s) -> ci_modes MinScore f1s f2s n1s n2s <> [] ->
+  (v = 0 <-> exists m, In m (ci_modes MinScore f1s f2s n1s n2s) /\
+               (corr_index_raw Rops (mA m) (mB m) (nA m) (nB m) < tol \/ cols_covered m (ncols (mA m)))).
+Proof. exact correlation_index_zero_iff_min. Qed.
+Print Assumptions C20_corrindex_zero_iff_negligible_min_score.
+
+(* the raw index is non-negative and vanishes exactly on covered pairs; the threshold is the only other way to 0 *)
+Theorem C20_corrindex_raw_zero_iff_covered : forall (r : nat) (m : cmode R), mode_ok r m -> (0 < r)%nat ->
+  0 <= corr_index_raw Rops (mA m) (mB m) (nA m) (nB m) /\
+  (corr_index_raw Rops (mA m) (mB m) (nA m) (nB m) = 0 <-> cols_covered m r).
+Proof. exact ci_raw_nonneg_zero. Qed.
+Print Assumptions C20_corrindex_raw_zero_iff_covered.
+
+Theorem C20_corrindex_zero_exact_tol0 : forall (meth : cmethod) (tol : R) (f1s f2s : list (mat R))
   (n1s n2s : list (list R)) (v : R),
   meth <> MinScore ->
   correlation_index Rops (Some meth) tol f1s f2s n1s n2s = Ok v -> tol <= 0 ->
-  tape_valid (ci_modes meth f1s f2s n1s n2s) -> v = 0 ->
-  forall m, In m (ci_modes meth f1s f2s n1s n2s) -> (0 < ncols (mA m))%nat -> cols_covered m (ncols (mA m)).
-Proof. exact correlation_index_zero_inv_all. Qed.
-Print Assumptions C20_corrindex_zero_only_if_covered_partial.
+  tape_valid (ci_modes meth f1s f2s n1s n2s) ->
+  (v = 0 <-> forall m, In m (ci_modes meth f1s f2s n1s n2s) -> cols_covered m (ncols (mA m))).
+Proof. exact correlation_index_zero_exact_all. Qed.
+Print Assumptions C20_corrindex_zero_exact_tol0.
 
-Theorem C20_corrindex_zero_min_score_partial : forall (tol : R) (f1s f2s : list (mat R)) (n1s n2s : list (list R)) (v : R),
+Theorem C20_corrindex_zero_exact_tol0_min_score : forall (tol : R) (f1s f2s : list (mat R)) (n1s n2s : list (list R)) (v : R),
   correlation_index Rops (Some MinScore) tol f1s f2s n1s n2s = Ok v -> tol <= 0 ->
-  tape_valid (ci_modes MinScore f1s f2s n1s n2s) -> v = 0 -> ci_modes MinScore f1s f2s n1s n2s <> [] ->
-  exists m, In m (ci_modes MinScore f1s f2s n1s n2s) /\ ((0 < ncols (mA m))%nat -> cols_covered m (ncols (mA m))).
-Proof. exact correlation_index_zero_inv_min. Qed.
-Print Assumptions C20_corrindex_zero_min_score_partial.
+  tape_valid (ci_modes MinScore f1s f2s n1s n2s) -> ci_modes MinScore f1s f2s n1s n2s <> [] ->
+  (v = 0 <-> exists m, In m (ci_modes MinScore f1s f2s n1s n2s) /\ cols_covered m (ncols (mA m))).
+Proof. exact correlation_index_zero_exact_min. Qed.
+Print Assumptions C20_corrindex_zero_exact_tol0_min_score.
 
 (* ---------- equality case of Cauchy-Schwarz: aligned = collinear ---------- *)
 Theorem C20_cosine_one_iff_collinear : forall (r : nat) (m : cmode R) (i j : nat),
@@ -249,9 +332,47 @@ Theorem C20_cov_sq_le_var_var : forall (n : nat) (f g : nat -> R),
 Proof. exact cov_sq_le_var_var. Qed.
 Print Assumptions C20_cov_sq_le_var_var.
 
-(* RMSE / standard_deviation / correlation / reflective correlation go through sqrt, which the executed model does not
-   contain: the correspondence checks  v >= 0, v^2 = x  resp.  den > 0, c^2 den = num^2, c num >= 0 ; these relations
-   determine the value *)
+(* RMSE / standard_deviation / correlation / reflective correlation: model functions with the square root as an argument sq
+   (Model/Metrics.v); here sq := sqrt.  ax = None or Some a (already normalised, see C20_norm_axis_spec); idx ranges over the
+   reduced shape rshape ax (shape yt) ([] for None).  Together with C20_MSE_*_def / C20_covariance_*_def these are the
+   documented definitions entry by entry. *)
+Theorem C20_RMSE_def : forall (ax : option nat) (yt yp : tensor R) (idx : list nat), inb (rshape ax (shape yt)) idx ->
+  tget Rops (RMSE Rops sqrt ax yt yp) idx = sqrt (tget Rops (MSE Rops ax yt yp) idx).
+Proof. exact RMSE_is_sqrt. Qed.
+Print Assumptions C20_RMSE_def.
+
+Theorem C20_standard_deviation_def : forall (ax : option nat) (y : tensor R) (idx : list nat), inb (rshape ax (shape y)) idx ->
+  tget Rops (standard_deviation Rops sqrt ax y) idx = sqrt (tget Rops (variance Rops ax y) idx).
+Proof. exact std_is_sqrt. Qed.
+Print Assumptions C20_standard_deviation_def.
+
+Theorem C20_correlation_def : forall (ax : option nat) (yt yp : tensor R) (idx : list nat), inb (rshape ax (shape yt)) idx ->
+  tget Rops (correlation Rops sqrt ax yt yp) idx =
+  tget Rops (covariance Rops ax yt yp) idx / sqrt (tget Rops (variance Rops ax yt) idx * tget Rops (variance Rops ax yp) idx).
+Proof. exact correlation_is_ratio. Qed.
+Print Assumptions C20_correlation_def.
+
+(* |correlation| <= 1 wherever the code does not divide by zero *)
+Theorem C20_correlation_abs_le_1 : forall (ax : option nat) (yt yp : tensor R) (idx : list nat),
+  wf yt -> wf yp -> shape yp = shape yt -> axis_ok ax yt = true -> inb (rshape ax (shape yt)) idx ->
+  0 < tget Rops (variance Rops ax yt) idx * tget Rops (variance Rops ax yp) idx ->
+  Rabs (tget Rops (correlation Rops sqrt ax yt yp) idx) <= 1.
+Proof. exact correlation_abs_le_1. Qed.
+Print Assumptions C20_correlation_abs_le_1.
+
+Theorem C20_reflective_correlation_def_bound : forall (yt yp : tensor R) (a : nat) (idx : list nat),
+  wf yt -> wf yp -> shape yp = shape yt -> (a < ndim yt)%nat -> inb (remove_nth a (shape yt)) idx ->
+  let n := nth a (shape yt) 0%nat in
+  let f := fun k => tget Rops yt (insert_at a k idx) in let g := fun k => tget Rops yp (insert_at a k idx) in
+  tget Rops (reflective_correlation Rops sqrt (Some a) yt yp) idx =
+    rsum n (fun k => f k * g k) / sqrt (rsum n (fun k => f k ^ 2) * rsum n (fun k => g k ^ 2)) /\
+  (0 < rsum n (fun k => f k ^ 2) * rsum n (fun k => g k ^ 2) ->
+   Rabs (tget Rops (reflective_correlation Rops sqrt (Some a) yt yp) idx) <= 1).
+Proof. exact reflective_axis_def_bound. Qed.
+Print Assumptions C20_reflective_correlation_def_bound.
+
+(* the sqrt-free relations the correspondence ALSO checks on the implementation's output (v >= 0, v^2 = x resp. den > 0,
+   c^2 den = num^2, c num >= 0) determine the value: lemmas of real analysis *)
 Theorem C20_root_characterised : forall v x : R, 0 <= v -> v ^ 2 = x -> v = sqrt x.
 Proof. exact root_characterised. Qed.
 Print Assumptions C20_root_characterised.
@@ -337,6 +458,21 @@ Proof.
   intros i Hi m [<-|[]]. assert (i = 0%nat) as -> by lia. exists (-2). split; [exact K | discriminate].
 Qed.
 
+(* C20_ex_mode with A rescaled by 2 and B by -1/2: a rescaled pair in the sense of modes_rescaled (absolute values on) *)
+Definition C20_ex_mode' : cmode R := mkMode [[6]; [8]] [[3]; [4]] [10] [5].
+Example C20_ex_modes_rescaled : modes_rescaled true 1 [C20_ex_mode] [C20_ex_mode'].
+Proof.
+  assert (M' : mode_ok 1 C20_ex_mode').
+  { unfold mode_ok, norms_valid, C20_ex_mode'. cbn [mA mB nA nB].
+    split; [reflexivity|]. split; [reflexivity|]. split; [reflexivity|].
+    split; intros j Hj; (assert (j = 0%nat) as -> by (cbn in Hj; lia)); cbn; lra. }
+  constructor; [|constructor]. split; [exact (proj1 C20_ex_mode_ok)|]. split; [exact M'|].
+  exists (fun _ => 2), (fun _ => - (1 / 2)). split.
+  - split; [reflexivity|]. split; intros k i Hk Hi; assert (i = 0%nat) as -> by lia; cbn in Hk;
+      destruct k as [|[|k]]; cbn; try lra; lia.
+  - intros i Hi. split; [lra|]. split; [lra | discriminate].
+Qed.
+
 (* the executed instance accepts such an input and returns 1 with the recovering permutation *)
 Local Open Scope Q_scope.
 Example C20_ex_congruence_Q :
@@ -363,3 +499,20 @@ Example C20_ex_permute_list_Q :
   cp_permute_factors_list Qops [[[3#1]; [4#1]]] [[5#1]] [([2#1], [[[-6#1]; [-8#1]]], [[10#1]]); ([7#1], [[[4#1]; [3#1]]], [[5#1]])]
     (fun _ => [0%nat]) = Ok [([2#1], [[[-6#1]; [-8#1]]], [0%nat]); ([7#1], [[[4#1]; [3#1]]], [0%nat])].
 Proof. vm_compute. reflexivity. Qed.
+
+(* a dual certificate with gap 0: potentials [0; 0] certify the identity matching of [[1, 1/2], [1/2, 1]] *)
+Example C20_ex_dual_gap_Q : dual_gap Qops 2 [[1; 1#2]; [1#2; 1]] [0; 0] [0; 1]%nat = 0 /\
+                            dual_gap Qops 2 [[1; 1#2]; [1#2; 1]] [0; 0] [1; 0]%nat = 1.
+Proof. vm_compute. split; reflexivity. Qed.
+
+(* a positive threshold maps a non-equivalent pair (raw index 1/25) to 0; without threshold the raw index is returned *)
+Example C20_ex_corrindex_threshold_Q :
+  correlation_index Qops (Some Stacked) (1#2) [[[3#1]; [4#1]]] [[[4#1]; [3#1]]] [[5#1]] [[5#1]] = Ok 0 /\
+  correlation_index Qops (Some Stacked) 0 [[[3#1]; [4#1]]] [[[4#1]; [3#1]]] [[5#1]] [[5#1]] = Ok (1#25).
+Proof. vm_compute. split; reflexivity. Qed.
+
+(* the sqrt-based model functions, executed with a square root that is exact on the value met *)
+Example C20_ex_RMSE_Q :
+  RMSE Qops (fun x => if Qeq_bool x 9 then 3 else 0) None (mk [2]%nat [3; 3]) (mk [2]%nat [0; 0]) = mk [] [3] /\
+  correlation Qops (fun x => if Qeq_bool x 1 then 1 else 0) None (mk [2]%nat [1; 3]) (mk [2]%nat [3; 1]) = mk [] [-1].
+Proof. vm_compute. split; reflexivity. Qed.
